@@ -71,3 +71,65 @@ fn third_occurrence_through_the_game_api_is_a_draw() {
         else { assert!(matches!(ending, Some(GameEnding::Draw)), "third occurrence of the start position must be reported as drawn: {:?}", ending); }
     }
 }
+
+/// real play: shuffling walks from the starting position (mostly quiet officer moves, so positions recur; rook and
+/// king moves lose castling rights, double steps create en-passant targets); after every ply the position is
+/// registered and the reported count must equal the number of registrations of the SAME full position -
+/// placement, side to move, castling rights, en-passant target -, a third of the plies are taken back with
+/// unregister + undo
+#[test]
+fn recurrences_in_real_play_are_counted_per_full_position() {
+    type Full = String;
+    fn full(b: &Board) -> Full {
+        let s = snapshot(b);
+        format!("{:?}|{:?}|{}|{}", s.0, s.1, s.2, s.3)
+    }
+    let mut r = Lcg(2024);
+    let mut recurrences = 0usize;
+    for walk in 0..300 {
+        let mut mg = MoveGenerator::new();
+        let mut b = Board::starting_position();
+        let mut counts: HashMap<Full, u8> = HashMap::new();
+        let mut played: Vec<ChessMove> = Vec::new();
+        let got = b.count_current_position();
+        let e = counts.entry(full(&b)).or_insert(0); *e += 1;
+        assert_eq!(got, *e, "walk {}: start position", walk);
+        for ply in 0..40 {
+            if !played.is_empty() && r.below(3) == 0 {
+                // take the last ply back: unregister, then undo
+                let key = full(&b);
+                let got = b.uncount_current_position();
+                let e = counts.get_mut(&key).unwrap(); *e -= 1;
+                assert_eq!(got, *e, "walk {} ply {}: unregister after {:?}", walk, ply, played.iter().map(|m| m.to_uci()).collect::<Vec<_>>());
+                let m = played.pop().unwrap();
+                b.toggle_turn();
+                m.undo(&mut b).unwrap();
+                continue;
+            }
+            let turn = b.turn();
+            let moves = mg.generate_moves(&mut b, turn);
+            if moves.is_empty() { break; }
+            // prefer quiet moves of knights, rooks and kings (they shuffle back and forth), sometimes anything
+            let quiet: Vec<&ChessMove> = moves.iter().filter(|m| m.captures().is_none()
+                && matches!(b.get(m.from_square()), Some((Piece::Knight, _)) | Some((Piece::Rook, _)) | Some((Piece::King, _)))).collect();
+            // half of the time the piece this side moved last goes straight back (positions recur)
+            let back: Option<ChessMove> = if played.len() >= 2 && r.below(2) == 0 {
+                let last = &played[played.len() - 2];
+                quiet.iter().find(|m| m.from_square() == last.to_square() && m.to_square() == last.from_square()).map(|m| (*m).clone())
+            } else { None };
+            let m: ChessMove = if let Some(m) = back { m } else if !quiet.is_empty() && r.below(8) != 0 { quiet[r.below(quiet.len())].clone() } else { moves[r.below(moves.len())].clone() };
+            m.apply(&mut b).unwrap();
+            b.toggle_turn();
+            played.push(m);
+            let key = full(&b);
+            let before = counts.get(&key).copied().unwrap_or(0);
+            if before >= 200 { break; }
+            let got = b.count_current_position();
+            let e = counts.entry(key).or_insert(0); *e += 1;
+            if *e > 1 { recurrences += 1; }
+            assert_eq!(got, *e, "walk {} ply {}: the position after {:?} has been registered {} time(s) (same placement, side to move, rights {:#06b}, en-passant target {:#x}) but the reported count is {}",
+                       walk, ply, played.iter().map(|m| m.to_uci()).collect::<Vec<_>>(), *e, b.peek_castle_rights(), b.peek_en_passant_target().0, got);
+        }
+    }
+    assert!(recurrences > 200, "the walks produced only {} recurrences (vacuous)", recurrences);
+}
